@@ -4,19 +4,34 @@ sys.path.insert(0, os.path.dirname(__file__))
 from _common import main, j2b, b2j
 import iso_common as R
 
-BOUND = '15 base messages of text elements and their mutations: length digits replaced by sign, space, underscore, non-ASCII digits; lengths pointing before, at and past the end; declared lengths above configured maxima; bitmap bits added/removed; truncation and extension (about 1500 messages, quick) ; compared with a strict reference decoder'
+BOUND = 'each base message also under 3 re-orderings of the configuration keys and with bitmap bit 1 cleared; 15 base messages of text elements and their mutations: length digits replaced by sign, space, underscore, non-ASCII digits; lengths pointing before, at and past the end; declared lengths above configured maxima; bitmap bits added/removed; truncation and extension (about 1500 messages, quick) ; compared with a strict reference decoder'
 
 
-def check(raw, enc='latin_1'):
+def reorder(cfg, how):
+    """the same configuration with its keys in another order (a configuration is a mapping: order carries no meaning)"""
+    keys = list(cfg)
+    if how == 'reversed':
+        keys = keys[::-1]
+    elif how == 'text-sorted':          # what json.dumps(sort_keys=True) / a YAML round trip produces: '1','10','100',...,'2','20'
+        keys = sorted(keys)
+    elif how == 'rotated':
+        keys = keys[len(keys) // 2:] + keys[:len(keys) // 2]
+    return {k: cfg[k] for k in keys}
+
+
+def check(raw, enc='latin_1', order=None):
     from cardutil.iso8583 import loads, Iso8583DataError
     cfg = R.packaged()
+    kw = {}
+    if order:
+        kw['iso_config'] = reorder(cfg, order)
     try:
         ref = R.ref_decode(raw, cfg, enc)
         ref_ok, nondigit = True, False
     except R.Refuse as r:
         ref, ref_ok, nondigit = None, False, (r.args[:1] == ('nondigit',))
     try:
-        got = loads(raw, encoding=enc)
+        got = loads(raw, encoding=enc, **kw)
     except Iso8583DataError:
         got = None
     if got is None:
@@ -60,7 +75,7 @@ def check(raw, enc='latin_1'):
 def oracle(inp):
     inp = j2b(inp)
     if inp.get('kind') == 'raw':
-        return check(inp['raw'])
+        return check(inp['raw'], order=inp.get('order'))
     if inp.get('kind') == 'framing' and isinstance(inp.get('data'), bytes):
         bm = bytearray(16); bm[0] |= 0x80
         for b in inp['bits']:
@@ -88,8 +103,17 @@ def cases(tier, rng):
         bases.append((bs, dumps(msg)))
     bases.append(([31, 33], dumps({'MTI': '1144', 'DE31': 'a' * 23, 'DE33': 'abcd'})))
     bases.append(([2, 3], dumps({'MTI': '1144', 'DE2': '4444555566667777', 'DE3': '000000'})))
+    bases.append(([3, 24, 71, 94], dumps({'MTI': '1144', 'DE3': '123456', 'DE24': '200', 'DE71': '00000001', 'DE94': 'abc'})))
     for bs, raw in bases:
         yield {'kind': 'raw', 'raw': b2j(raw)}
+        # the same message under the same configuration listed in another key order
+        for order in ('reversed', 'text-sorted', 'rotated'):
+            yield {'kind': 'raw', 'raw': b2j(raw), 'order': order}
+            yield {'kind': 'raw', 'raw': b2j(raw[:-1]), 'order': order}
+        # bit 1 clear (cardutil's own encoder always sets it; other producers need not): elements above 64 still occupy their bytes
+        d = bytearray(raw); d[4] &= 0x7f
+        yield {'kind': 'raw', 'raw': b2j(bytes(d))}
+        yield {'kind': 'raw', 'raw': b2j(bytes(d)[:-1])}
         ref = R.ref_decode(raw, cfg, 'latin_1')
         for bit, p, ls, L in ref['__framing__']:
             for k in range(ls):
